@@ -275,7 +275,7 @@ func checkArithCase(m *model.Model, s *ob.Set, e enums, rule string, fn *ssa.Fun
 	}
 	isRnd := func(ev cdai.Event) bool {
 		switch ev.Fn {
-		case "(*Decimal).round", "(*Decimal).umul", "(*Decimal).uadd", "(*Decimal).usub", "(*Decimal).uquo":
+		case "(*Decimal).round", "(*Decimal).umul", "(*Decimal).uadd", "(*Decimal).usub", "(*Decimal).uquo", "(*Decimal).setExpAndRound":
 			return len(ev.Args) > 0 && sameObj(ev.Args[0], z)
 		}
 		return false
@@ -390,13 +390,25 @@ func checkArithCase(m *model.Model, s *ob.Set, e enums, rule string, fn *ssa.Fun
 					want = "(*Decimal).uquo"
 				}
 				evs := findEvents(o.St, want)
+				inlined := false
+				if len(evs) == 0 && m.TryLookup(want) == nil {
+					// the unsigned helper does not exist in this program (inlined into its callers):
+					// the step that matters is the one rounding of the receiver, with the same
+					// receiver state; which operands went in cannot be told from a mantissa routine
+					for _, e2 := range findEvents(o.St, "(*Decimal).setExpAndRound") {
+						if len(e2.Args) > 0 && sameObj(e2.Args[0], z) {
+							evs = append(evs, e2)
+						}
+					}
+					inlined = true
+				}
 				if len(evs) != 1 || !sameObj(evs[0].Args[0], z) {
 					fail(o, "exactly one %s on the receiver expected", want)
 					break
 				}
 				ev := evs[0]
-				okOrder := sameObj(ev.Args[1], xo) && sameObj(ev.Args[2], yo)
-				if c.op == "Mul" && sameObj(ev.Args[1], yo) && sameObj(ev.Args[2], xo) {
+				okOrder := inlined || (sameObj(ev.Args[1], xo) && sameObj(ev.Args[2], yo))
+				if !inlined && c.op == "Mul" && sameObj(ev.Args[1], yo) && sameObj(ev.Args[2], xo) {
 					okOrder = true
 				}
 				if !okOrder {
@@ -414,6 +426,14 @@ func checkArithCase(m *model.Model, s *ob.Set, e enums, rule string, fn *ssa.Fun
 				continue
 			case "FMA":
 				evs := findEvents(o.St, "(*Decimal).umul")
+				inlinedMul := false
+				if len(evs) == 0 && m.TryLookup("(*Decimal).umul") == nil {
+					// umul inlined: the product step is the first setExpAndRound of the trace
+					if se := findEvents(o.St, "(*Decimal).setExpAndRound"); len(se) > 0 {
+						evs = se[:1]
+						inlinedMul = true
+					}
+				}
 				if len(evs) != 1 {
 					fail(o, "exactly one umul expected")
 					continue
@@ -425,7 +445,7 @@ func checkArithCase(m *model.Model, s *ob.Set, e enums, rule string, fn *ssa.Fun
 				if p, ok := evRecvInt(m, ev, m.F.Prec); !ok || p != e.maxPrec {
 					fail(o, "the product must be computed exactly (prec=MaxPrec), got prec=%s", cdai.Str(ev.Recv[m.F.Prec]))
 				}
-				okOrder := (sameObj(ev.Args[1], objs[1]) && sameObj(ev.Args[2], objs[2])) || (sameObj(ev.Args[1], objs[2]) && sameObj(ev.Args[2], objs[1]))
+				okOrder := inlinedMul || (sameObj(ev.Args[1], objs[1]) && sameObj(ev.Args[2], objs[2])) || (sameObj(ev.Args[1], objs[2]) && sameObj(ev.Args[2], objs[1]))
 				if !okOrder {
 					fail(o, "umul must be applied to (x,y)")
 				}
